@@ -92,6 +92,17 @@ class Ledger:
                     # the step ran again and replaced the user's content with its own
                     del self.user[ev["path"]]
         if snap is not None:
+            # A step that was executed again over an output the user had overwritten takes the
+            # path back, whether or not its command got as far as writing it: what is found at
+            # its output paths after the command is recorded as its (outdated) output.
+            executed = {ev["step"] for ev in build.events if ev["type"] == "cmd_start"}
+            for fi, (state, _h) in snap["file"].items():
+                lab, creator = snap["node"][fi][1], snap["node"][fi][2]
+                if state in PRODUCT and creator in snap["step"] and snap["node"][creator][1] in executed \
+                        and "overwritten by the user" in self.user.get(lab, ""):
+                    late = [ev for ev in build.events if ev["type"] == "late_user_write" and ev["path"] == lab]
+                    if not late:
+                        del self.user[lab]
             for fi, (state, _h) in snap["file"].items():
                 if state in PRODUCT:
                     lab = snap["node"][fi][1]
@@ -221,6 +232,18 @@ def judge_removed(ledger, removed, before_files, snap_before, snap_after, unsafe
         for fi, (state, _h) in snap["file"].items():
             if state in STATIC and not snap["node"][fi][3]:
                 static_labels.add(snap["node"][fi][1])
+    recorded = {}
+    for snap in (snap_before, snap_after):
+        if snap is None:
+            continue
+        for fi, (state, hash_json) in snap["file"].items():
+            if hash_json:
+                try:
+                    import base64
+                    dig = base64.b85decode(json.loads(hash_json)["digest"]).hex()[:16]
+                except Exception:  # noqa: BLE001
+                    continue
+                recorded.setdefault(snap["node"][fi][1], set()).add(dig)
     for p in removed:
         counters["paths_removed_judged"] += 1
         if p in static_labels:
@@ -236,9 +259,15 @@ def judge_removed(ledger, removed, before_files, snap_before, snap_after, unsafe
             kind = "undeclared"
         elif p in ledger.ever_volatile:
             kind = "volatile"
-        elif before_files[p] != ledger.written.get(p) and not unsafe:
-            vio("modified output deleted", f"{what}: {p} held {before_files[p]}, the step wrote {ledger.written.get(p)}")
+        elif before_files[p] != ledger.written.get(p) and before_files[p] not in recorded.get(p, ()) and not unsafe:
+            vio("modified output deleted", f"{what}: {p} held {before_files[p]}, the step wrote "
+                f"{ledger.written.get(p)}, StepUp had recorded {sorted(recorded.get(p, ()))}")
             kind = "modified"
+        elif before_files[p] != ledger.written.get(p) and not unsafe:
+            # what StepUp last recorded for the path (e.g. the content found there after its step
+            # failed), not what a command wrote: allowed by the property, counted
+            counters["removed_recorded_but_not_written"] = counters.get("removed_recorded_but_not_written", 0) + 1
+            kind = "recorded"
         else:
             kind = "output"
         classes.add(repr((tag, "removed", kind)))
